@@ -106,13 +106,31 @@ def build(variant: str = 'plain', quiet: bool = True) -> Path:
         inc = ['-I', str(snap / 'include'), '-isystem', PYBIND_INC, '-isystem', _py_include(),
                f'-ffile-prefix-map={snap}=/repo']
 
+        # object files are cached by content (flags + this source + every header): a tree that differs
+        # only in python files, or in one .cpp, recompiles nothing / one file
+        hh = hashlib.sha256(repr((variant, spec, COMMON)).encode())
+        for f in sorted((snap / 'include').rglob('*.h')):
+            hh.update(str(f.relative_to(snap)).encode())
+            hh.update(f.read_bytes())
+        header_digest = hh.hexdigest()
+        ocache = BUILD_ROOT / 'objcache' / variant
+        ocache.mkdir(parents=True, exist_ok=True)
+
         def cc(src: Path) -> Path:
+            key = hashlib.sha256((header_digest + str(src.relative_to(snap))).encode() + src.read_bytes()).hexdigest()[:24]
+            cached = ocache / (key + '.o')
+            if cached.exists():
+                os.utime(cached)
+                return cached
             o = obj / (src.stem + '.o')
             cmd = [spec['cxx'], *COMMON, *spec['cflags'], *inc, '-c', str(src), '-o', str(o)]
             r = subprocess.run(cmd, capture_output=True, text=True)
             if r.returncode != 0:
                 raise RuntimeError(f'compile failed: {src}\n{r.stderr[-4000:]}')
-            return o
+            tmp = ocache / (key + f'.{os.getpid()}.tmp')
+            shutil.copyfile(o, tmp)
+            os.replace(tmp, cached)
+            return cached
 
         with ThreadPoolExecutor(16) as ex:
             objs = list(ex.map(cc, sources(snap)))
@@ -124,6 +142,8 @@ def build(variant: str = 'plain', quiet: bool = True) -> Path:
         if r.returncode != 0:
             raise RuntimeError(f'link failed\n{r.stderr[-4000:]}')
         shutil.rmtree(obj)
+        for stale in sorted(ocache.glob('*.o'), key=lambda f: f.stat().st_mtime)[:-150]:
+            stale.unlink(missing_ok=True)
         if variant == 'fuzz':
             rt = out / 'libfuzzer_rt.so'
             a = subprocess.run(['clang-14', '-print-file-name=libclang_rt.fuzzer_no_main-x86_64.a'],
